@@ -8,7 +8,8 @@ PROPS = [json.loads(l)["id"] for l in open(os.path.join(HERE, "properties.jsonl"
 
 TB = ("Trusted: CPython's ast and exception hierarchy; documented semantics of asyncio Semaphore/Lock/Event/Task/gather/Queue/start_server, "
       "contextlib.suppress, argparse, inspect.signature; the effect table and the may-raise table of the analyser (logging, len, str, f-strings do not raise); "
-      "user code reaches the library only through calls of parameters / stored callables and iteration of a parameter. ")
+      "user code reaches the library only through calls of parameters / stored callables and iteration of a parameter. "
+      "With every check: WHAT-RUNS (R00.D: no analysed function is replaced by a non-transparent decorator or re-bound) and NO-HIDDEN-STATE (R00.M: no analysed function keeps state in module-level containers). ")
 
 CHECKS = {
     "C01": ("Decides the structural discipline that implies the bound: every pool-task creation is dominated by a completed slot acquire (all edge kinds), tasks are created only "
@@ -36,7 +37,7 @@ CHECKS = {
             "table agreement by constant propagation + iteration typestate + who-may tables", "5 C05",
             TB + "Declined: 'exactly num_concurrent running whenever idle' as a count. F1 shared (known finding)."),
     "C06": ("Two-phase cancel (no look-up or raising step reachable after a Task.cancel), look-up table decided by abstract interpretation over the four id states "
-            "(running/cancelled/ended/unknown -> return / AlreadyCancelled / AlreadyEnded / TaskNotFound<=InvalidTaskID), who-may-cancel table, cancelled tasks are exactly the looked-up list; an id names one task (id discipline shared with C11).",
+            "(running/cancelled/ended/unknown -> return / AlreadyCancelled / AlreadyEnded / TaskNotFound<=InvalidTaskID), who-may-cancel table, cancelled tasks are exactly the looked-up list; an id names one task (id discipline shared with C11); NO-SHARED-TASK (no pool coroutine awaits a task kept in an attribute).",
             "CFG reachability + abstract interpretation of the look-up over 4 cases + who-may-call", "5 C06",
             TB + "Declined: 'observes one CancelledError at its next suspension point' (Task semantics). F1 shared."),
     "C07": ("cancel_group validates first and raises only TaskGroupNotFound; cancel_all returns only with an empty table and hands every entry to the helper; spawners cancelled before "
@@ -50,7 +51,7 @@ CHECKS = {
             "completion-dominance on the CFG + GATHER-COMPLETE rule + constant propagation", "5 C08",
             TB + "Declined: 'returns only after every task finished' as a temporal statement (follows from the order + trusted gather). F1 shared."),
     "C09": ("VALIDATE-FIRST on every spawning entry point and the pool_size setter (no trace completes before any raising exit), precedence type-check < closed < locked, raise inventory "
-            "by constant propagation (each documented rejection reachable, exact comparison constants), who-may-write the lock flag, lock/unlock idempotent and non-raising.",
+            "by constant propagation (each documented rejection reachable, exact comparison constants), who-may-write the lock flag, lock/unlock idempotent and non-raising; FUNCTION-PREDICATE (nothing but what iscoroutinefunction accepts passes the function check, by three-valued evaluation of the checks).",
             "path rule VALIDATE-FIRST + constant propagation + who-may-write", "5 C09", TB + "Declined: nothing structural."),
     "C10": ("Exactly one register add per started task, in the register filed under the task's group_name, same id as the running-registry key, one atomic segment; who-may add/remove; "
             "group-name wiring through all hops and return values; name templates by abstract string evaluation; generated names returned only after the membership test; "
@@ -74,7 +75,7 @@ CHECKS = {
             "effect analysis (who writes the paths the getter reads) + VALIDATE-FIRST", "5 C15", TB + "F5a-c are recorded known findings; mixed arithmetic is inconclusive, not a violation."),
     "C16": ("Handshake sequence by completion-dominance (read, json, parser with the session's buffer and the client's width, add_subparsers, add_class_commands(run-time class), "
             "name + newline, drain); command surface (getmembers, '_' filter with public_only default True, function/property dispatch, dash names, member stored under CMD, help enabled); "
-            "EXECUTABLE (a required argument is filed under the parameter name the session looks up); PARSER-CONFIG; TABLE(annotation kinds at run time vs what the converter does with them) over every public member of every pool class: finding F6.",
+            "EXECUTABLE (a required argument is filed under the parameter name the session looks up); PARSER-CONFIG; TOTAL-INDEXING on the command-building path; TABLE(annotation kinds at run time vs what the converter does with them) over every public member of every pool class: finding F6.",
             "dominance on the CFG + producer/consumer table agreement (annotation kind vs converter domain)", "5 C16",
             TB + "Declined: the bytes on the wire; help text for every width (argparse run-time behaviour). F6 is a recorded known finding."),
     "C17": ("Dispatch structure of _exec_method_and_respond (self, positional kinds in signature order, *args after, rest by keyword, through return_or_exception), RESULT-USED at all "
@@ -84,12 +85,12 @@ CHECKS = {
             TB + "Declined: equality of effects for every argument value (translation over run-time values). F6 shared (known finding)."),
     "C18": ("HATCHES (all four argparse escape hatches overridden, no print/sys.std*/exit in parser, session, server; positive control in client), per-iteration protocol of listen by "
             "typestate (one read, one command, one reply, drained), containment as three structural sub-rules (handlers around parse_args cover ArgumentError/HelpRequested/ParserError and "
-            "fall through; type wrapper lets only ArgumentTypeError/TypeError/ValueError out; pool members invoked only through return_or_exception after a successful parse), buffer isolation.",
+            "fall through; type wrapper lets only ArgumentTypeError/TypeError/ValueError out; pool members invoked only through return_or_exception after a successful parse), buffer isolation, PARSER-CONFIG, UNCONVERTED-ONLY-SENTINEL, SESSION-IS-LOCAL (per-connection objects live in the connection callback's locals).",
             "hatch/who-may rules + iteration typestate + exceptional-exit inventory", "5 C18",
             TB + "Declined: one reply 'when the wait is over'; output of concurrent sessions (follows from per-instance state)."),
     "C19": ("serve_forever awaits only the start-up and returns the serving task; _serve_forever runs _final_callback exactly once on every way out once serving began and absorbs "
             "cancellation; the unix callback unlinks the path that was listened on; ALL-EXITS(_client_connected_cb => writer.close) over normal/exception/cancellation edges; listen "
-            "re-tests is_serving and leaves on EOF; NO-SPIN-AT-EOF (no stream read is repeated on an empty result without a real suspension in between); client closes and clears its flag on exit/EOF.",
+            "re-tests is_serving and leaves on EOF; NO-SPIN-AT-EOF (no stream read is repeated on an empty result without a real suspension in between); SESSION-IS-LOCAL; client closes and clears its flag on exit/EOF.",
             "ALL-EXITS path counting over all edge kinds + data-flow equality of paths", "5 C19",
             TB + "Declined: everything observable only on real sockets (promptness, refusal of new connections, other sessions unaffected)."),
     "C20": ("__aenter__ takes exactly one item and reaches no task_done on any edge (in particular the cancellation edge of the waiting get); __aexit__ reaches task_done exactly once "
